@@ -476,19 +476,23 @@ func (ndb *nodeDB) deleteVersion(version int64, cache *rootkeyCache) error {
 		ndb.logger.Error("Error while pruning, moving on the the next version in the store", "version missing", version, "next version", version+1, "err", err)
 	}
 
+	// The keys of the nodes that go with the version are collected first and
+	// deleted after its root entry: the batch may be flushed at any write, and
+	// a version must not be listed any more once the first of its nodes is gone.
 	// rootOrphaned tells whether the root node (version, 1) is removed together with the version.
 	rootOrphaned := false
+	var orphanKeys [][]byte
 	if rootKey != nil {
 		if err := ndb.traverseOrphansWithRootkeyCache(cache, version, version+1, func(orphan *Node) error {
 			if !orphan.isLegacy && orphan.nodeKey.version == version && orphan.nodeKey.nonce == 1 {
+				// the root entry itself, deleted below
 				rootOrphaned = true
+				return nil
 			}
 			if orphan.nodeKey.nonce == 0 && !orphan.isLegacy {
 				// if the orphan is a reformatted root, it can be a legacy root
 				// so it should be removed from the pruning process.
-				if err := ndb.deleteFromPruning(ndb.legacyNodeKey(orphan.hash)); err != nil {
-					return err
-				}
+				orphanKeys = append(orphanKeys, ndb.legacyNodeKey(orphan.hash))
 			}
 			nk := orphan.GetKey()
 			if orphan.nodeKey.nonce == 1 && orphan.nodeKey.version < version && !orphan.isLegacy {
@@ -500,9 +504,11 @@ func (ndb *nodeDB) deleteVersion(version int64, cache *rootkeyCache) error {
 				nk = (&NodeKey{version: orphan.nodeKey.version, nonce: 0}).GetKey()
 			}
 			if orphan.isLegacy {
-				return ndb.deleteFromPruning(ndb.legacyNodeKey(nk))
+				orphanKeys = append(orphanKeys, ndb.legacyNodeKey(nk))
+			} else {
+				orphanKeys = append(orphanKeys, ndb.nodeKey(nk))
 			}
-			return ndb.deleteFromPruning(ndb.nodeKey(nk))
+			return nil
 		}); err != nil && !errors.Is(err, ErrVersionDoesNotExist) {
 			return err
 		}
@@ -510,14 +516,6 @@ func (ndb *nodeDB) deleteVersion(version int64, cache *rootkeyCache) error {
 
 	verifYield("deleteVersion.afterOrphans")
 	literalRootKey := GetRootKey(version)
-	if rootKey == nil || !bytes.Equal(rootKey, literalRootKey) {
-		// if the root key is not matched with the literal root key, it means the given root
-		// is a reference root to the previous version.
-		if err := ndb.deleteFromPruning(ndb.nodeKey(literalRootKey)); err != nil {
-			return err
-		}
-	}
-
 	// check if the root node of the version is still used by later versions,
 	// as their root (reference roots) or as a child of one of their nodes
 	if bytes.Equal(literalRootKey, rootKey) && !rootOrphaned {
@@ -535,8 +533,15 @@ func (ndb *nodeDB) deleteVersion(version int64, cache *rootkeyCache) error {
 		if err := ndb.saveNodeFromPruning(&rekeyed); err != nil {
 			return err
 		}
-		// ensure that the given version is not included in the root search
-		if err := ndb.deleteFromPruning(ndb.nodeKey(literalRootKey)); err != nil {
+	}
+	// The root entry: a node that goes with the version, a reference root to
+	// the previous version, or the node just re-keyed; in every case deleting
+	// it ensures that the given version is not included in the root search.
+	if err := ndb.deleteFromPruning(ndb.nodeKey(literalRootKey)); err != nil {
+		return err
+	}
+	for _, k := range orphanKeys {
+		if err := ndb.deleteFromPruning(k); err != nil {
 			return err
 		}
 	}
